@@ -11,6 +11,10 @@ open Go Vuego.Overlay
 /-- The overlay as the code has it now: the error rule of ReadDir is what the extractor found in the source. -/
 def readDir (c : Chain) (p : Str) : Option (List MEntry) := readDirWith Generated.overlayErrRule c p
 
+/-- the overlay implements exactly Open, ReadDir and Glob: every other io/fs helper (fs.ReadFile, fs.Stat) goes through `Open`, so the
+    first-layer rule of (1) is also the rule for reading a file. An added ReadFile/Stat/Sub method would need its own theorem. -/
+theorem source_overlay_methods : Generated.overlayMethods = ["Glob", "Open", "ReadDir"] := by decide
+
 /-- (1) `Open` serves `p` from layer `k` with entry `e` exactly when layer `k` is the first non-nil layer that has `p`. -/
 theorem open_first_layer (c : Chain) (p : Str) (k : Nat) (e : Entry) :
     «open» c p = some (k, e) ↔
